@@ -2625,7 +2625,11 @@ class InventoryPreviewTree(PreviewTree, inventorytree.InventoryTree):
         """See Tree.get_symlink_target."""
         file_id = self.path2id(path)
         if not self._content_change(file_id):
-            return self._transform._tree.get_symlink_target(path)
+            # The entry may have been renamed by the transform: look it up
+            # where the underlying tree has it.
+            return self._transform._tree.get_symlink_target(
+                self._transform._tree.id2path(file_id)
+            )
         trans_id = self._path2trans_id(path)
         name = self._transform._limbo_name(trans_id)
         return osutils.readlink(name)
@@ -2634,7 +2638,11 @@ class InventoryPreviewTree(PreviewTree, inventorytree.InventoryTree):
         """See Tree.get_file."""
         file_id = self.path2id(path)
         if not self._content_change(file_id):
-            return self._transform._tree.get_file(path)
+            # The entry may have been renamed by the transform: look it up
+            # where the underlying tree has it.
+            return self._transform._tree.get_file(
+                self._transform._tree.id2path(file_id)
+            )
         trans_id = self._path2trans_id(path)
         name = self._transform._limbo_name(trans_id)
         return open(name, "rb")
